@@ -116,7 +116,7 @@ func init() {
 			// results do not depend on the thresholds: same query under two assignments
 			jobs = append(jobs, J("H_C06_thresh", o, "m", 2, "n", 2))
 			if tier == "thorough" {
-				jobs = append(jobs, J("H_C06_mul", o, "m", 5, "n", 4), J("H_C06_mul", o, "m", 6, "n", 6), J("H_C06_mul", o, "m", 3, "n", 2, "kt", 2), J("H_C06_mul", o, "m", 3, "n", 3, "kt", 2),
+				jobs = append(jobs, J("H_C06_mul", o, "m", 5, "n", 4), J("H_C06_mul", o, "m", 6, "n", 6), J("H_C06_mul", o, "m", 3, "n", 2, "kt", 2),
 					J("H_C06_sqr", o, "m", 4), J("H_C06_sqr", o, "m", 3, "bst", 2), J("H_C06_div", o, "m", 4, "n", 1), J("H_C06_div", o, "m", 2, "n", 3),
 					J("H_C06_divpat", o, "n", 2, "m", 4, "v0", 4, "v1", 2), J("H_C06_divpat", o, "n", 2, "m", 4, "v0", 5, "v1", 3), J("H_C06_divpat", o, "n", 3, "m", 5, "v0", 4, "v1", 4, "v2", 2),
 					J("H_C06_divpat", o, "n", 2, "m", 4, "v0", 5, "v1", 3, "alias", 1), J("H_C06_divpat", o, "n", 2, "m", 4, "v0", 5, "v1", 3, "alias", 3))
@@ -125,7 +125,7 @@ func init() {
 		},
 		Bounds: map[string]string{
 			"quick":    "dec.mul: schoolbook 1x1..4x4 words, Karatsuba (threshold variable lowered to 2) at 2x2; dec.sqr: 1-3 words via mul10WW/decBasicMul, decBasicSqr (threshold lowered) at 2 words; dec.div: dividend shorter than divisor, single-word divisors with 1-3 word dividends (divW/div10VWW), and 2- and 3-word divisors taken from a list of extremal patterns (top word D/2, D/2+1, D-1, 7e18; lower words D-1, 0, 1, ...) with ARBITRARY dividends of up to one more word than the divisor + 1 (divLarge scaling, divBasic quotient-digit estimation, correction loop, add-back, un-scaling), also with the quotient or remainder receiver aliased to the divisor or the dividend; threshold independence at 2x2. Helpers: decAddAt (z += x*D^i with carry through one or more upper words, given the sum fits) at 7 shapes, digit/sticky at 19 (words, position) pairs incl. positions at and beyond word boundaries, digits/trailingZeroDigits for 1-2 words, shl/shr of 1-2 words by {0,1,18,19,20,38} digits into fresh, identical and longer stale receivers. All word values (< 10^19), including whole-word runs of 0s and 9s.",
-			"thorough": "dec.mul up to 6x6 schoolbook and 3x3 Karatsuba incl. the unbalanced loop; decBasicSqr at 3 words; divisors of 1 word with 4-word dividends.",
+			"thorough": "dec.mul up to 6x6 schoolbook and 3x2 Karatsuba incl. the unbalanced loop (3x3 with the lowered threshold does not finish within 50 minutes and is not registered); decBasicSqr at 3 words; divisors of 1 word with 4-word dividends.",
 		},
 		Outside: []string{
 			"dec.div with SYMBOLIC divisors of two or more words: the obligations come back unknown (no loop-head invariant cuts, DESIGN 2.4); multi-word divisors are covered only for the concrete extremal patterns listed in the bounds. Consequence: C01's Quo jobs with symbolic multi-word divisors rest on the dec.div contract as an assumption. divRecursive (threshold constant 100) is not reached.",
